@@ -502,7 +502,14 @@ class Sym:
                         # block move made before the loops ends exactly at the new length.
                         grow = args[1] - P.L0
                         if P.sub.sign(-grow)[0] != "nonneg" and not (grow == ZERO) and not getattr(P, "tail_skip", False):
-                            reaches = any((dst + cnt) == args[1] for (src, dst, cnt) in P.pre_moves) or any(w == P.L0 for w in P.writes0)      # .. or the new cells are written right behind the old end (append, then rotate)
+                            def same_(x, y):
+                                if x == y:
+                                    return True
+                                try:      # equal after substituting the path's equalities (`iter.len() == self.num_rows`)
+                                    return P.sub.sign(x - y)[0] == "nonneg" and P.sub.sign(y - x)[0] == "nonneg"
+                                except Exception:
+                                    return False
+                            reaches = any(same_(dst + cnt, args[1]) for (src, dst, cnt) in P.pre_moves) or any(same_(w, P.L0) for w in P.writes0)      # .. or the new cells are written right behind the old end (append, then rotate)
                             P.acc.append(("TAIL", "a block move carries the old tail to the end of the grown buffer (new length %r)" % (args[1],), ONE if reaches else -ONE, t["span"]))
                     P.vlen = args[1]
                 return [(P, Tup([]))]
